@@ -932,7 +932,7 @@ theorem foldlM_none_of_mem {α β : Type} (step : α → β → Option α) (l : 
       | some s1 => exact ih hd' s1
 
 theorem compileFile_include_none (files : String → Option String) (f : Nat) (name src p : String)
-    (decls : List Decl) (hfile : files name = some src) (hparse : (lex src).bind parseMal = some decls)
+    (decls : List Decl) (hfile : files name = some src) (hparse : parseSource src = some decls)
     (hinc : Decl.incl p ∈ decls) (hbad : compileFile files f p = none) :
     compileFile files (f+1) name = none := by
   rw [compileFile_succ, hfile]
@@ -943,7 +943,7 @@ theorem compileFile_include_none (files : String → Option String) (f : Nat) (n
 
 /-- a file that does not lex or does not parse has no specification, at any depth -/
 theorem compileFile_bad_file (files : String → Option String) (f : Nat) (name src : String)
-    (hfile : files name = some src) (hbad : (lex src).bind parseMal = none) :
+    (hfile : files name = some src) (hbad : parseSource src = none) :
     compileFile files f name = none := by
   cases f with
   | zero => exact compileFile_zero _ _
